@@ -840,5 +840,19 @@ m('medialink-carries-the-generation','C09','storage/gcsemu/meta.go',
 		meta.MediaLink += fmt.Sprintf("&generation=%d", meta.Generation)
 	}
 }''','R80/','the file store bakes the link from the sidecar generation and overwrites the generation afterwards')
+# ---- C03 / R81: a sent chunk buffer is emptied before the scan goes on
+m('readrows-heartbeat-without-reset','C03',BT,
+  '''			} else if !match {
+				return true
+			}
+''','''			} else if !match {
+				if len(cb.chunks) > 512 {
+					if err = sendResponse(); err != nil {
+						return false
+					}
+				}
+				return true
+			}
+''','R81/','rows already sent are sent again with the next batch')
 json.dump(M, open('/verif/mutants.json','w'), indent=1)
 print(len(M),'mutants')
